@@ -715,4 +715,153 @@ example : (L3.run [0, 1, 0, 1] ({ st := [1, 2, 3], owner := none, thr := [rawDel
 example : (L3.runA [0, 1, 0, 1] ({ st := [1, 2, 3], owner := none, thr := [rawDel 1, rawDel 2] } : L3.Sys (List Nat) Nat)).st = [3] := by
   decide
 
+/-! ### never beyond the attempt budget, for every interleaving of overlapping callers
+
+  `Job._exec` (after the repair of D5) runs under the job's execution lock: it reads
+  `has_attempts_remaining`, and only if the budget allows runs the callback and books the run.  As an
+  L3 program over the shared attempts counter: `acq; snap; commit (guardedRun M); rel`.  Any number of
+  workers of any number of overlapping `exec_jobs` calls may execute such sections for the same job,
+  interleaved with reads of the counter from anywhere (`peek`).  Whatever the schedule, the counter
+  never exceeds the budget. -/
+
+/-- the booked run: computed from the value READ under the lock -/
+def guardedRun (M : Nat) : List Nat → Nat × Bool
+  | [] => (0, false)                      -- unreachable: `noBareCommit` below (a commit always follows a read)
+  | a :: _ => if a < M then (a + 1, true) else (a, false)
+
+/-- every commit of the program is preceded, inside its section, by at least one read -/
+def noBareCommit : Bool → List (L3.Step Nat Bool) → Prop
+  | _, [] => True
+  | _, .snap :: p => noBareCommit true p
+  | b, .commit _ :: p => b = true ∧ noBareCommit false p
+  | _, .acq :: p => noBareCommit false p
+  | _, .rel :: p => noBareCommit false p
+  | b, .peek _ :: p => noBareCommit b p
+
+/-- all commits of the program are `guardedRun M` -/
+def onlyGuarded (M : Nat) : List (L3.Step Nat Bool) → Prop
+  | [] => True
+  | .commit f :: p => f = guardedRun M ∧ onlyGuarded M p
+  | _ :: p => onlyGuarded M p
+
+structure BudgetInv (M : Nat) (s : L3.Sys Nat Bool) : Prop where
+  bound : s.st ≤ M
+  shape : ∀ (i : Nat) (th : L3.Thread Nat Bool), s.thr[i]? = some th → noBareCommit (!th.buf.isEmpty) th.prog ∧ onlyGuarded M th.prog
+
+theorem budget_stepA (M : Nat) (s : L3.Sys Nat Bool) (hB : BudgetInv M s) (i : Nat) :
+    BudgetInv M (L3.stepA s i) := by
+  unfold L3.stepA
+  cases hth : s.thr[i]? with
+  | none => exact hB
+  | some th =>
+      simp only []
+      obtain ⟨hnb, hog⟩ := hB.shape i th hth
+      have hset : ∀ (t : L3.Thread Nat Bool) (j : Nat) (tj : L3.Thread Nat Bool),
+          (s.thr.set i t)[j]? = some tj → (j = i ∧ tj = t) ∨ (j ≠ i ∧ s.thr[j]? = some tj) := by
+        intro t j tj h
+        rw [L3.getElem?_set_thr _ _ _ _ _ hth] at h
+        by_cases hij : i = j
+        · subst hij; simp only [if_true, Option.some.injEq] at h; exact Or.inl ⟨rfl, h.symm⟩
+        · simp only [hij, if_false] at h; exact Or.inr ⟨fun e => hij e.symm, h⟩
+      cases hp : th.prog with
+      | nil => simp only [L3.step, hth, hp]; exact hB
+      | cons stp p =>
+          rw [hp] at hnb hog
+          cases stp with
+          | commit f =>
+              simp only []
+              obtain ⟨hb, hnb'⟩ := hnb
+              obtain ⟨hf, hog'⟩ := hog
+              have hlen : th.buf.length ≠ 0 := by
+                intro h0
+                have : th.buf = [] := List.length_eq_zero_iff.mp h0
+                simp [this] at hb
+              constructor
+              · show (f (List.replicate th.buf.length s.st)).1 ≤ M
+                obtain ⟨k, hk⟩ := Nat.exists_eq_succ_of_ne_zero hlen
+                rw [hf, hk, List.replicate_succ]
+                simp only [guardedRun]
+                have := hB.bound
+                split <;> simp <;> omega
+              · intro j tj hj
+                rcases hset _ j tj hj with ⟨_, rfl⟩ | ⟨_, h⟩
+                · exact ⟨by simpa using hnb', hog'⟩
+                · exact hB.shape j tj h
+          | acq =>
+              simp only [L3.step, hth, hp]
+              refine ⟨hB.bound, ?_⟩
+              intro j tj hj
+              rcases hset _ j tj hj with ⟨_, rfl⟩ | ⟨_, h⟩
+              · exact ⟨by simpa [noBareCommit] using hnb, by simpa [onlyGuarded] using hog⟩
+              · exact hB.shape j tj h
+          | rel =>
+              simp only [L3.step, hth, hp]
+              refine ⟨hB.bound, ?_⟩
+              intro j tj hj
+              rcases hset _ j tj hj with ⟨_, rfl⟩ | ⟨_, h⟩
+              · exact ⟨by simpa [noBareCommit] using hnb, by simpa [onlyGuarded] using hog⟩
+              · exact hB.shape j tj h
+          | snap =>
+              simp only [L3.step, hth, hp]
+              refine ⟨hB.bound, ?_⟩
+              intro j tj hj
+              rcases hset _ j tj hj with ⟨_, rfl⟩ | ⟨_, h⟩
+              · have hne : (!(th.buf ++ [s.st]).isEmpty) = true := by simp
+                refine ⟨?_, by simpa [onlyGuarded] using hog⟩
+                show noBareCommit (!(th.buf ++ [s.st]).isEmpty) p
+                rw [hne]
+                simpa [noBareCommit] using hnb
+              · exact hB.shape j tj h
+          | peek g =>
+              simp only [L3.step, hth, hp]
+              refine ⟨hB.bound, ?_⟩
+              intro j tj hj
+              rcases hset _ j tj hj with ⟨_, rfl⟩ | ⟨_, h⟩
+              · exact ⟨by simpa [noBareCommit] using hnb, by simpa [onlyGuarded] using hog⟩
+              · exact hB.shape j tj h
+
+theorem budget_runA (M : Nat) (sched : List Nat) (s : L3.Sys Nat Bool) (hB : BudgetInv M s) :
+    BudgetInv M (L3.runA sched s) := by
+  induction sched generalizing s with
+  | nil => exact hB
+  | cons i rest ih =>
+      simp only [L3.runA, List.foldl_cons]
+      by_cases he : L3.enabled s i = true
+      · simp only [he, if_true]; exact ih _ (budget_stepA M s hB i)
+      · simp only [he]; exact ih _ hB
+
+/-- **never beyond the attempt budget**: any number of threads, each executing any number of
+    `_exec` sections (read the budget under the execution lock, run and book only if it allows) and
+    unlocked reads of the counter, under ANY schedule of their individual steps - the counter the
+    code computes from its buffered reads never exceeds the budget -/
+theorem C14.budget_under_overlapping_callers (M : Nat) (s : L3.Sys Nat Bool) (hI : L3.Inv s)
+    (hB : BudgetInv M s) (sched : List Nat) : (L3.run sched s).st ≤ M := by
+  rw [C14.locked_sections_atomic s hI sched]
+  exact (budget_runA M sched s hB).bound
+
+/-- the `_exec` section -/
+def execSection (M : Nat) : List (L3.Step Nat Bool) := [.acq, .snap, .commit (guardedRun M), .rel]
+
+/-! non-vacuity: three workers of overlapping callers run a one-shot (budget 1); and what the lock is
+    for - the same read / book steps without it let two workers both run the job (defect D5) -/
+example : L3.Inv ({ st := 0, owner := none, thr := [⟨execSection 1, [], []⟩, ⟨execSection 1 ++ execSection 1, [], []⟩, ⟨execSection 1, [], []⟩] } : L3.Sys Nat Bool)
+    ∧ BudgetInv 1 ({ st := 0, owner := none, thr := [⟨execSection 1, [], []⟩, ⟨execSection 1 ++ execSection 1, [], []⟩, ⟨execSection 1, [], []⟩] } : L3.Sys Nat Bool) := by
+  constructor
+  · apply C14.locked_initial
+    intro th h
+    simp at h
+    rcases h with rfl | rfl | rfl <;> simp [execSection, L3.progOK]
+  · refine ⟨by decide, ?_⟩
+    intro i th h
+    match i, h with
+    | 0, h => cases h; simp [execSection, noBareCommit, onlyGuarded]
+    | 1, h => cases h; simp [execSection, noBareCommit, onlyGuarded]
+    | 2, h => cases h; simp [execSection, noBareCommit, onlyGuarded]
+    | n+3, h => simp at h
+
+def rawExec (M : Nat) : L3.Thread Nat Bool := { prog := [.snap, .commit (guardedRun M)], buf := [], outs := [] }
+
+example : (L3.run [0, 1, 0, 1] ({ st := 0, owner := none, thr := [rawExec 1, rawExec 1] } : L3.Sys Nat Bool)).thr.map (·.outs)
+    = [[true], [true]] := by decide
+
 end SV
